@@ -89,6 +89,7 @@ def run(ctx):
             by.setdefault((s["ctx"], s["cls"]), []).append(s)
         sel = [s for s in shapes if s["path"] in ("pcur", "swapown")]
         take = {"verdict": 4, "control": 2, "open": 2, "forbid": 1}
+        bytekinds = ("cvLibBytesSet", "cvLibBytesSwap", "cvLibBytesSetP", "cvOwnBytesSet", "cvLibRunesSet", "cvLibRunesSwap", "cvLibRunesSetP", "cvOwnRunesSet")
         libslice = ("cvSortSwap", "cvSortRev", "cvSortInts", "cvLibSet", "cvLibSwap", "cvStrSwap", "cvStrSort", "cvFlSwap", "cvFlSort", "cvNamedSortSwap", "cvUnnamedSort")
         for (c, cls), lst in sorted(by.items()):
             lst = [s for s in lst if s["path"] not in ("pcur", "swapown")]
@@ -99,7 +100,10 @@ def run(ctx):
             if cls == "verdict":
                 # the "convert a victim-owned value, then mutate through the converted value" family: one write through a
                 # library method on a converted victim slice, one other conversion kind, per context
-                sel += [s for s in conv if s["wk"] in libslice][:1] + [s for s in conv if s["wk"] not in libslice][:1]
+                sel += [s for s in conv if s["wk"] in libslice][:1] + [s for s in conv if s["wk"] not in libslice and s["wk"] not in bytekinds][:1]
+                sel += [s for s in conv if s["wk"] in ("cvLibBytesSet", "cvLibBytesSwap", "cvLibBytesSetP")][:1]
+                if c in ("s_main", "a_cross", "a_nc", "q_fn_s"):
+                    sel += [s for s in plain if s["wk"] in ("byString", "ruString")][:2] + [s for s in conv if s["wk"] in bytekinds and not s["wk"].startswith("cvLibBytes")][:2]
             else:
                 sel += conv[:1]
         parts = [sel[0::2], sel[1::2]]
@@ -124,6 +128,8 @@ def run(ctx):
                     "conversion_shapes_executed": tot.get("conv_executed", 0), "conversion_to_library_type_executed": tot.get("conv_library_executed", 0),
                     "write_through_converted_victim_slice_via_library_method": tot.get("conv_library_slice_executed", 0),
                     "victim_own_write_through_converted_slice_observed": tot.get("ctl_swapown_mutated", 0),
+                    "write_through_converted_victim_bytes_via_p_method": tot.get("conv_p_method_on_victim_bytes_executed", 0),
+                    "legal_string_conversion_of_victim_bytes_ok": tot.get("legal_string_conversion_ok", 0),
                     "contexts_executed": tot.get("contexts_executed", 0), "flaky": tot.get("flaky", 0),
                     "exhaustive": not quick})
     for r in notes["rejected"][:5]:
@@ -149,6 +155,9 @@ def run(ctx):
     if not bykey and (tot.get("conv_library_slice_executed", 0) < 20 or tot.get("ctl_swapown_mutated", 0) < 1):
         raise vlib.Inconclusive("VACUOUS", "writes through a converted victim-owned slice via a library method were not exercised (%d attack shapes on the VM, %d control mutations observed)" % (
             tot.get("conv_library_slice_executed", 0), tot.get("ctl_swapown_mutated", 0)))
+    if not bykey and (tot.get("conv_p_method_on_victim_bytes_executed", 0) < 20 or tot.get("legal_string_conversion_ok", 0) < 1):
+        raise vlib.Inconclusive("VACUOUS", "writes through a converted victim []byte via a /p/ method not exercised (%d), or the legal string(victim bytes) control did not succeed (%d)" % (
+            tot.get("conv_p_method_on_victim_bytes_executed", 0), tot.get("legal_string_conversion_ok", 0)))
     if tot.get("contexts_executed", 0) < 25:
         raise vlib.Inconclusive("VACUOUS", "only %d attacker contexts executed" % tot.get("contexts_executed", 0))
     ctx.log("shapes run %d, executed %d, verdict blocked %d / ok-unchanged %d, controls mutated %d, open mutated %d, violations %s" % (
